@@ -158,9 +158,30 @@ func (c *specCtx) eval(e Expr) sval {
 		names := map[string]sval{}
 		var binders []string
 		for _, qv := range x.Vars {
-			t := sortToType(qv.Type)
+			t := sortToType(strings.TrimPrefix(qv.Type, "*"))
 			var s string
-			if t != nil {
+			if strings.HasPrefix(qv.Type, "*") {
+				t = nil
+				if c.pkg != nil {
+					if o := c.pkg.Scope().Lookup(qv.Type[1:]); o != nil {
+						t = types.NewPointer(o.Type())
+						s = "Int"
+					}
+				}
+				if t == nil {
+					for _, p := range fx.g.allPkgs {
+						if fx.g.repoPkgs[p.Path()] {
+							if o := p.Scope().Lookup(qv.Type[1:]); o != nil {
+								t = types.NewPointer(o.Type())
+								s = "Int"
+							}
+						}
+					}
+				}
+				if t == nil {
+					panic(specErr("unknown quantifier type %s", qv.Type))
+				}
+			} else if t != nil {
 				s = fx.d.SortOf(t)
 			} else {
 				// named type from package scope
@@ -178,12 +199,21 @@ func (c *specCtx) eval(e Expr) sval {
 			names[qv.Name] = sval{term: bn, typ: t, sort: s}
 			binders = append(binders, "("+bn+" "+s+")")
 		}
-		body := c.with(names).eval(x.Body)
+		qc := c.with(names)
+		body := qc.eval(x.Body)
 		k := "exists"
 		if x.Forall {
 			k = "forall"
 		}
-		return sval{term: "(" + k + " (" + strings.Join(binders, " ") + ") " + body.term + ")", typ: tBool, sort: "Bool"}
+		bt := body.term
+		if len(x.Triggers) > 0 {
+			var ts []string
+			for _, t := range x.Triggers {
+				ts = append(ts, qc.eval(t).term)
+			}
+			bt = "(! " + bt + " :pattern (" + strings.Join(ts, " ") + "))"
+		}
+		return sval{term: "(" + k + " (" + strings.Join(binders, " ") + ") " + bt + ")", typ: tBool, sort: "Bool"}
 	case *ECall:
 		return c.call(x)
 	}
@@ -370,7 +400,7 @@ func (c *specCtx) index(v, i sval) sval {
 		et := v.typ.Underlying().(*types.Slice).Elem()
 		arr, srt := fx.elemsArr(et)
 		h := fx.heapGet(c.cur, arr, srt)
-		return sval{term: fmt.Sprintf("(select (select %s (sl_arr %s)) (+ (sl_off %s) %s))", h, v.term, v.term, i.term), typ: et, sort: fx.d.SortOf(et)}
+		return sval{term: fmt.Sprintf("(select (select %s (sl_arr %s)) (at (sl_off %s) %s))", h, v.term, v.term, i.term), typ: et, sort: fx.d.SortOf(et)}
 	}
 	if strings.HasPrefix(v.sort, "(Array ") {
 		// ghost array
@@ -611,6 +641,8 @@ func (c *specCtx) call(x *ECall) sval {
 		v := c.eval(x.Args[0])
 		t := c.typeExpr(x.Args[1])
 		return sval{term: "(" + fx.implPred(t) + " " + v.term + ")", typ: tBool, sort: "Bool"}
+	case "noneset":
+		return sval{term: "((as const (Array Int Bool)) false)", sort: "(Array Int Bool)"}
 	case "zero":
 		t := c.typeExpr(x.Args[0])
 		return sval{term: fx.d.Zero(t), typ: t, sort: fx.d.SortOf(t)}
